@@ -87,7 +87,7 @@ def decodeG (s : String) : Option Qy :=
   | some (q, []) => some q
   | _ => none
 
-def bits? (s : String) : Option Bits :=
+def bits? (s : String) : Option (List Bool) :=
   if s == "-" then some [] else
   s.toList.mapM fun c => if c == '1' then some true else if c == '0' then some false else none
 
@@ -108,13 +108,13 @@ def parseRows (s : String) : Option (List TruthRow) :=
 /-- the model's prediction of what the implementation selects: parse the rendered string, evaluate the tree -/
 def modelBits (O : Oracle) (c : Corpus) (s : B) : String :=
   match parse O s with
-  | .ok q =>
-    match evalQ c q with
-    | some b => showBits b
-    | none => "?" ++ canon q
+  | .ok q => if keysPresent c q then showPred c (evalQ c q) else "?" ++ canon q
   | .err _ => "err"
   | .panic st => "panic:" ++ st
   | .diverge => "diverge"
+
+def boolsToString (l : List Bool) : String :=
+  if l.isEmpty then "-" else String.ofList (l.map fun x => if x then '1' else '0')
 
 def handle (line : String) : String :=
   let (inp, impl) := splitCase line
@@ -125,20 +125,25 @@ def handle (line : String) : String :=
       if renderQ g != s then badCase "render(G) differs from the string the harness sent" else
       let c : Corpus := ⟨repoOf, rows⟩
       if !(rows.all fun r => r.cs.length == c.n && r.ci.length == c.n) then badCase "truth row length" else
+      if !definedQ g then badCase "sem undefined for this tree (generator must stay inside the documented values)" else
       let m1 := modelBits (mkOracle tbl false) c s
       let m2 := modelBits (mkOracle tbl true) c s
       if m1 != m2 then badCase "oracle table lacks a key the model consulted" else
       let O := mkOracle tbl false
-      let implBits : Option (Option Bits) :=
+      let implBits : Option (Option (List Bool)) :=
         if impl == "err" then some none else (bits? impl).map some
+      -- the tree the theorems of Props/C06 are about (`abstractParse g`): reported when it selects other documents
+      -- than the model's parse of the rendered string (the tokenizer did not read render(g) as g)
+      let abs := match abstractParse O g with
+        | .ok q => showPred c (evalQ c q)
+        | .err _ => "err"
+        | _ => "crash"
+      let note := if abs == m1 then "" else " abstract=" ++ abs
       match implBits with
       | none => specFail m1 ("impl:" ++ impl)
       | some ib =>
-        match semQ O c none g with
-        | none => badCase "sem undefined for this tree (generator must stay inside the documented values)"
-        | some want =>
-          if checkP O c g ib then answer m1
-          else specFail m1 ("sem want=" ++ showBits want)
+        if checkP O c g ib then (if note == "" then answer m1 else specFail m1 ("roundtrip" ++ note))
+        else specFail m1 ("sem want=" ++ showPred c (semQ O c none g) ++ note)
     | _, _, _, _, _ => badCase "fields"
   | _ => badCase "op"
 
